@@ -16,6 +16,7 @@ import langlib
 
 TEXTS = {
     "space": " ", "tab": "\t", "block": " /* c */ ", "block2": " /* a *//* b */ ", "blockml": " /* l1\n l2 */ ",
+    "crlf": "\r\n", "crlfcomment": " // note\r\n",
     "blockstars": " /**/ ", "blockdoc": " /** d **/ ", "blockslash": " /*/ ",
     "newline": "\n", "linecomment": " // note\n", "hashcomment": " # note\n", "blankline": "\n\n",
 }
